@@ -316,7 +316,7 @@ class Orchestrator:  # thailint: ignore[srp]
             List of violations found in the file.
         """
         # Fast path: skip compiled files and common excluded directories
-        if _is_hardcoded_excluded(file_path):
+        if _is_hardcoded_excluded(self._path_inside_project(file_path)):
             return []
 
         if self.ignore_parser.is_ignored(file_path):
@@ -330,6 +330,13 @@ class Orchestrator:  # thailint: ignore[srp]
         context = FileLintContext(file_path, language, metadata=metadata)
 
         return self._execute_rules(rules, context)
+
+    def _path_inside_project(self, file_path: Path) -> Path:
+        """Path relative to the project root: built-in exclusions must not depend on where the project lives."""
+        try:
+            return file_path.resolve().relative_to(self.project_root.resolve())
+        except (ValueError, OSError):
+            return file_path
 
     def lint_files(self, file_paths: list[Path]) -> list[Violation]:
         """Lint multiple files.
